@@ -10,6 +10,7 @@ R4 std/no_std and plan provenance: both ways of building a block encoder use the
 from .. import mir, terms, xconfig
 from ..terms import V, match, fmt
 from . import dec
+from ..absint import places_of
 
 P = lambda i: ("param", i)
 
@@ -61,15 +62,61 @@ def run_twins(rep, dev, rel, cfgname):
         return ok
 
     twins_found = {"a": 0, "b": 0, "d": 0}
+    compared_fns = 0
+    compared_sites = 0
     for k in sorted(set(dev.fns) & set(rel.fns)):
         fd, fr = dev.fns[k], rel.fns[k]
         sd, sr = xconfig.sites(dev, fd), xconfig.sites(rel, fr)
         d_only = xconfig.only_in(sd, sr)
         r_only = xconfig.only_in(sr, sd)
-        if not d_only and not r_only:
-            continue
+        compared_fns += 1
         tbd = xconfig.NamedTB(fd)
         tbr = xconfig.NamedTB(fr)
+        ssd = xconfig.SpanSlice(fd, debug_fields)
+        ssr = xconfig.SpanSlice(fr, debug_fields)
+        # same source span in both builds: the operands must be the same terms (a cfg-selected local or
+        # cfg!() expression feeding an unchanged call is a difference too)
+        for sp, dl, rl in xconfig.common(sd, sr):
+            kind, callee, nd, bd_, id_ = dl
+            _, _, nr, br_, ir_ = rl
+            compared_sites += 1
+            if kind == "call":
+                ad = tuple(ssd.of_operand(a) for a in nd["args"])
+                ar = tuple(ssr.of_operand(a) for a in nr["args"])
+            else:
+                ad = (ssd.of_store(nd),)
+                ar = (ssr.of_store(nr),)
+            if ad == ar:
+                continue
+            where = mir.stmt_loc(nd)
+            short = (callee or "store").split("::")[-1]
+            def show(x):
+                return sorted("%s:%d:%d %s" % (e[0][0].split("/")[-1], e[0][1], e[0][2], e[1]) if isinstance(e[0], tuple) else str(e) for e in x)[:8]
+            diff = [{"operand": j, "debug_only_defs": show(a - b), "release_only_defs": show(b - a)}
+                    for j, (a, b) in enumerate(zip(ad, ar)) if a != b]
+            # errata-11 twin: nothing but the computation of the start column (last operand) differs; the receiver's
+            # slice contains the start column as well because the call itself may write through &mut self
+            last = (ad[-1] ^ ar[-1]) if ad and len(ad) == len(ar) else frozenset()
+            if kind == "call" and short == "fma_rows" and "pi_solver" in callee and len(ad) == len(ar) and \
+                    all((a ^ b) <= last for a, b in zip(ad[:-1], ar[:-1])):
+                twins_found["a"] += 1
+                rep.ok(R, where, "%s: one call %s whose start column alone is computed differently in the two builds (errata 11 start column)" % (
+                    k.split("::")[-1], short), diff, cfgname)
+                continue
+            mp = xconfig.mut_params(dev, callee, nd) if kind == "call" else [0]
+            if kind == "call" and mp is not None and not mp:
+                continue          # pure call: its result is compared where it is used
+            if kind == "store":
+                pl = tbd.place(bd_, id_, nd["lhs"])
+                if terms.find(("deref", ("param", 1)), pl) is None:
+                    continue      # local temporary; compared where it is used
+                if xconfig.root_field(pl) in debug_fields:
+                    continue
+            rep.bad(R, k, "operands-differ:" + short, where,
+                    "%s: the same %s is compiled with differently computed operands in debug and release builds" % (k.split("::")[-1],
+                        "call of " + short if kind == "call" else "store"), diff, cfgname)
+        if not d_only and not r_only:
+            continue
         rel_calls = []
         for sp, (kind, callee, node, b, i) in r_only:
             rel_only_total += 1
@@ -156,11 +203,14 @@ def run_twins(rep, dev, rel, cfgname):
                 rep.bad(R, k, "release-only-call:" + rc[0].split("::")[-1], mir.stmt_loc(rc[2]),
                         "%s: a call compiled only in release builds has no debug twin with the same operands" % k.split("::")[-1],
                         {"args": [fmt(a)[:60] for a in rc[1]]}, cfgname)
-    rep.floor(R, rel_only_total, 4, "release-only statements (errata 11 x3, fifth phase)", cfgname)
-    rep.floor(R, twins_found["a"], 3, "errata-11 twins", cfgname)
-    rep.floor(R, twins_found["b"], 1, "fifth-phase twin", cfgname)
-    rep.check(rel_only_total == 4, R, "crate", "release-only-count", "-",
-              "exactly the four reviewed release-only statements exist (a new one must be reviewed)", {"found": rel_only_total}, cfgname)
+    # what was compared (fail closed if the comparison saw nothing); the twins themselves are not demanded:
+    # a tree without the errata-11 short-cut would satisfy the property as well
+    rep.check(bool(dev.d.get("debug_assertions")) and not rel.d.get("debug_assertions"), R, "crate", "configs-differ", "-",
+              "the two compared builds really are debug_assertions on / off", None, cfgname)
+    rep.floor(R, compared_fns, 450, "functions present in both builds and compared site by site", cfgname)
+    rep.floor(R, compared_sites, 2000, "call/store sites with the same source span compared operand by operand", cfgname)
+    rep.ok(R, "-", "differences classified: %d errata-11 twins, %d fifth-phase twin, %d reviewed HDPC write, %d release-only statements" % (
+        twins_found["a"], twins_found["b"], twins_found["d"], rel_only_total), None, cfgname)
     # side conditions of the twins ------------------------------------------------------------
     for crate, nm in ((dev, "dev"), (rel, "rel")):
         fr = [f for k, f in crate.fns.items() if k.endswith("::fma_rows") and "pi_solver" in k]
@@ -214,7 +264,6 @@ def run_twins(rep, dev, rel, cfgname):
             after = f.cfg.reachable_from(f.blocks[fifth[0]]["term"]["target"])
             for b in after:
                 blk = f.blocks[b]
-                from ..absint import places_of
                 for node in blk["stmts"] + [blk["term"]]:
                     if node.get("t") == "drop":
                         continue
@@ -264,3 +313,86 @@ def run_threshold(rep, crate, cfg):
                                                    (terms.normalise(terms.strip_casts(("call", "std::slice::<impl [T]>::len", (P(1),)))),))))
         rep.check(len(sel) == 1 and sel[0] == want, R, g.key, "selection-test", g.loc(),
                   "the generator picks the sparse matrix iff K' >= threshold", {"found": [fmt(c)[:100] for c in sel]}, cfg)
+
+
+def _strip_refs(t):
+    while isinstance(t, tuple) and t and t[0] in ("ref", "deref", "deref*"):
+        t = t[1]
+    return t
+
+
+def run_constructors(rep, crate, cfg):
+    """R4b: every way of building a block encoder (std: cached plan; no_std: direct solve; explicit plan) stores the
+    symbols produced by create_symbols(config, data) and derives the intermediate symbols from exactly those symbols,
+    the configured symbol size, and a plan / solve for exactly that many symbols."""
+    R = "C07-R4"
+    sites = 0
+    N = lambda t: terms.normalise(terms.strip_casts(t))
+    for k, f in sorted(crate.fns.items()):
+        if f.f.get("impl_trait"):
+            continue      # derived Clone copies field by field
+        tb = None
+        for blk in f.blocks:
+            if blk["cleanup"] or blk["i"] not in f.cfg.reach:
+                continue
+            for i, s in enumerate(blk["stmts"]):
+                if not (s.get("s") == "assign" and s["rv"]["r"] == "aggregate" and (s["rv"].get("adt") or "").endswith("encoder::SourceBlockEncoder")):
+                    continue
+                tb = tb or terms.TermBuilder(f)
+                sites += 1
+                ops = {fl: N(tb.operand(blk["i"], i, o)) for fl, o in zip(s["rv"]["fields"], s["rv"]["ops"])}
+                where = mir.stmt_loc(s)
+                short = k.split("::")[-1]
+                S = ops.get("source_symbols")
+                I = ops.get("intermediate_symbols")
+                m = match(("call", V("c", lambda x: isinstance(x, str) and x.endswith("::create_symbols")), (V("cfg"), V("data"))), S) if S else None
+                rep.check(m is not None and m["cfg"][0] == "param" and m["data"][0] == "param", R, k, "stores-created-symbols", where,
+                          "%s stores the symbols made by create_symbols(config, data)" % short, {"source_symbols": fmt(S)[:120] if S else None}, cfg)
+                gens = []
+                def visit(t):
+                    if t[0] == "call" and isinstance(t[1], str) and t[1].split("::")[-1] in ("gen_intermediate_symbols", "gen_intermediate_symbols_with_plan"):
+                        gens.append(t)
+                    return t
+                if I:
+                    terms.map_term(I, visit)
+                ok = len(gens) == 1
+                det = {"intermediate_symbols": fmt(I)[:200] if I else None}
+                if ok:
+                    g = gens[0]
+                    a = g[2]
+                    ok = _strip_refs(a[0]) == S
+                    ss = match(("call", V("c", lambda x: isinstance(x, str) and x.endswith("::symbol_size")), (V("cfg"),)), _strip_refs(a[1]))
+                    ok = ok and ss is not None and m is not None and _strip_refs(ss["cfg"]) == _strip_refs(m["cfg"])
+                rep.check(ok, R, k, "solves-from-stored-symbols", where,
+                          "%s derives the intermediate symbols from the very symbols it stores and the configured symbol size" % short, det, cfg)
+                if not ok:
+                    continue
+                g = gens[0]
+                if g[1].endswith("_with_plan"):
+                    plan = _strip_refs(g[2][2])
+                    # the plan's operations: either the cached/generated plan for len(symbols), or a caller's plan guarded by the count assertion
+                    got = terms.find(("call", V("c", lambda x: isinstance(x, str) and x.endswith("get_or_generate_source_block_encoding_plan")), (V("n"),)), plan)
+                    if got is not None:
+                        n = _strip_refs(got[0]["n"])
+                        okp = n[0] == "call" and n[1].endswith("::len") and _strip_refs(n[2][0]) == S
+                        rep.check(okp, R, k, "plan-for-this-count", where,
+                                  "%s takes the cached plan for exactly len(source_symbols)" % short, {"count": fmt(n)[:100]}, cfg)
+                    else:
+                        root = plan
+                        while isinstance(root, tuple) and root[0] in ("field", "ref", "deref", "deref*"):
+                            root = root[1]
+                        dnf = terms.path_dnf(tb, blk["i"])
+                        okp = False
+                        if root[0] == "param":
+                            for conj in dnf:
+                                for c_, truth in conj:
+                                    c_ = N(c_)
+                                    if truth and c_[0] == "op" and c_[1] == "Eq":
+                                        l, r = _strip_refs(c_[2]), _strip_refs(c_[3])
+                                        for x, y in ((l, r), (r, l)):
+                                            if x[0] == "call" and x[1].endswith("::len") and _strip_refs(x[2][0]) == S and terms.find(root, y) is not None:
+                                                okp = True
+                            okp = okp and len(dnf) >= 1 and all(any(True for _ in conj) for conj in dnf)
+                        rep.check(okp, R, k, "plan-count-asserted", where,
+                                  "%s refuses a caller-supplied plan unless it was made for len(source_symbols)" % short, None, cfg)
+    rep.floor(R, sites, 2, "SourceBlockEncoder construction sites", cfg)
